@@ -102,34 +102,57 @@ func C01(c *core.Ctx) {
 	// over inside a loop (to emit Data) is allocated inside that loop too; allocated
 	// outside, it still holds the faces of the entries handled before
 	nMaps := 0
+	restoreR110 := core.WithRoot(pid)
 	core.InstrsDeep(pid, func(in ssa.Instruction) {
 		rg, ok := in.(*ssa.Range)
 		if !ok {
 			return
 		}
-		// the map may be built by a private helper: it is then "allocated" where the
-		// helper is called
-		mm, ok := core.Resolve(rg.X).(*ssa.MakeMap)
-		if !ok {
-			return
-		}
-		at, use, okF := core.CommonFrame(pid, mm, rg)
-		if !okF {
+		// the map may be built by a private helper (it is then "allocated" where the
+		// helper is called), filled by one, or kept in a local slice until it is used
+		mms := core.MapOrigins(rg.X)
+		if len(mms) == 0 {
 			return
 		}
 		nMaps++
-		made := map[*ssa.BasicBlock]bool{}
-		for _, h := range enclosingLoops(at.Block()) {
-			made[h] = true
-		}
 		stale := ""
-		for _, h := range enclosingLoops(use.Block()) {
-			if !made[h] {
-				stale = p.Pos(h.Instrs[0].Pos())
+		for _, mm := range mms {
+			for _, mu := range core.MapUpdates(mm) {
+				at, fill, okF := core.CommonFrame(pid, mm, mu)
+				if !okF {
+					continue
+				}
+				made := map[*ssa.BasicBlock]bool{}
+				for _, h := range enclosingLoops(at.Block()) {
+					made[h] = true
+				}
+				// the loop over the in-records of ONE entry fills one set: the loop whose
+				// iteration variable is the key that is inserted
+				inner := map[*ssa.BasicBlock]bool{}
+				if e, isE := core.Strip(core.Resolve(mu.Key)).(*ssa.Extract); isE {
+					if nx, isN := e.Tuple.(*ssa.Next); isN {
+						for _, h := range enclosingLoops(nx.Block()) {
+							inner[h] = true
+							break
+						}
+					}
+				}
+				for _, h := range enclosingLoops(fill.Block()) {
+					if !made[h] && !inner[h] {
+						stale = "?"
+						for _, x := range h.Instrs {
+							if x.Pos().IsValid() {
+								stale = p.Pos(x.Pos())
+								break
+							}
+						}
+					}
+				}
 			}
 		}
-		c.Decide(stale == "", "R1.10", fmt.Sprintf("downstream-set-per-entry#%d", nMaps), c.Pos(mm), "the set of downstream faces is allocated in the iteration that consumes it", "processIncomingData ranges over a face set inside a loop that does not allocate it afresh: the faces of PIT entries handled earlier are still in it, so they receive the Data again (one copy per later matching entry)")
+		c.Decide(stale == "", "R1.10", fmt.Sprintf("downstream-set-per-entry#%d", nMaps), c.Pos(mms[0]), "the set of downstream faces is allocated in the iteration that fills it", "processIncomingData fills a face set inside a loop (at "+stale+") that does not allocate it afresh: the faces of PIT entries handled earlier are still in it, so they receive the Data again (or one copy and one token serve several pending Interests)")
 	})
+	restoreR110()
 	c.Floor("R1.10", "face sets ranged over in processIncomingData", nMaps, 1)
 
 	// ---- R1.1 who may call
@@ -434,6 +457,15 @@ func C01(c *core.Ctx) {
 			return core.Same(r, entryVal) && isC && b
 		}
 		loops := enclosingLoops(em.Block())
+		// the emissions may be collected first and sent after the loop over the matched
+		// entries: the loop that consumes is the one that takes the entry from the match list
+		{
+			restore := core.WithRoot(pid)
+			if def, isI := core.Resolve(entryVal).(ssa.Instruction); isI && def.Parent() == pid {
+				loops = append(loops, enclosingLoops(def.Block())...)
+			}
+			restore()
+		}
 		consumed := func(isB func(ssa.Instruction) bool) bool {
 			if len(loops) == 0 {
 				return core.MustFollowDeep(pid, core.After(em), isB, nil).OK || core.PrecedesDeep(pid, em, isB)
@@ -479,7 +511,7 @@ func C01(c *core.Ctx) {
 			c.Und("R1.4", "name-match-node", p.Pos(fm.Pos()), fmt.Sprintf("expected exactly one node whose pitEntries are scanned, found %d", nNodes))
 		}
 		isEntryOfN := func(v ssa.Value) bool { // v = N.pitEntries[i]
-			u, ok := core.Strip(v).(*ssa.UnOp)
+			u, ok := core.Strip(core.ResolveBoundary(core.Strip(v))).(*ssa.UnOp)
 			if !ok {
 				return false
 			}
@@ -488,7 +520,7 @@ func C01(c *core.Ctx) {
 				return false
 			}
 			b, ok := core.FieldOf(ia.X, "pitEntries")
-			return ok && nodeN != nil && core.Strip(b) == core.Strip(nodeN)
+			return ok && nodeN != nil && (core.Strip(b) == core.Strip(nodeN) || core.Same(b, nodeN))
 		}
 		cbp := &core.Atom{Name: "entry.canBePrefix", Match: func(cond ssa.Value) (int, int) {
 			if b, ok := core.FieldOfDeep(cond, "canBePrefix"); ok && isEntryOfN(b) {
@@ -512,9 +544,54 @@ func C01(c *core.Ctx) {
 				b, ok := core.FieldOf(v, "depth")
 				return ok && nodeN != nil && core.Strip(b) == core.Strip(nodeN)
 			}
-			isLen := func(v ssa.Value) bool { l, ok := core.LenOf(v); return ok && l == name }
+			isLen := func(v ssa.Value) bool { l, ok := core.LenOf(v); return ok && (l == name || core.Same(l, name)) }
 			if (isDepth(x) && isLen(y)) || (isDepth(y) && isLen(x)) {
 				return core.Iff(op == token.EQL)
+			}
+			// the same test made once before the walk: N == E, where E is S when
+			// S.depth == len(name) and nil otherwise (N is not nil where its entries are
+			// scanned, so N == E implies N is S and S is the node of the Data name)
+			isSentinel := func(v ssa.Value) bool {
+				phi, ok := core.Strip(core.ResolveBoundary(core.Strip(v))).(*ssa.Phi)
+				if !ok || len(phi.Edges) != 2 {
+					return false
+				}
+				for i, e := range phi.Edges {
+					if !core.IsNilConst(phi.Edges[1-i]) || core.IsNilConst(e) {
+						continue
+					}
+					sNode := core.Strip(e)
+					sDepth := &core.Atom{Name: "S.depth==len(name)", Match: func(c2 ssa.Value) (int, int) {
+						op2, x2, y2, ok2 := core.Cmp(c2)
+						if !ok2 || (op2 != token.EQL && op2 != token.NEQ) {
+							return 0, 0
+						}
+						isD := func(w ssa.Value) bool {
+							b, ok := core.FieldOf(w, "depth")
+							return ok && core.Same(b, sNode)
+						}
+						if (isD(x2) && isLen(y2)) || (isD(y2) && isLen(x2)) {
+							return core.Iff(op2 == token.EQL)
+						}
+						return 0, 0
+					}}
+					pred := phi.Block().Preds[i]
+					g := core.Gate(pred.Parent(), []ssa.Instruction{pred.Instrs[len(pred.Instrs)-1]}, core.Lit{A: sDepth, Want: true})
+					if g.OK && g.PassEdges > 0 {
+						return true
+					}
+				}
+				return false
+			}
+			isN := func(v ssa.Value) bool {
+				v = core.Strip(core.ResolveBoundary(core.Strip(v)))
+				return nodeN != nil && (v == core.Strip(nodeN) || core.Same(v, nodeN))
+			}
+			if (isN(x) && isSentinel(y)) || (isN(y) && isSentinel(x)) {
+				if op == token.EQL {
+					return 1, 0
+				}
+				return 0, 1
 			}
 			return 0, 0
 		}}
